@@ -3,7 +3,7 @@
     [cJSON_DeleteItemFromObject[CaseSensitive]] on a well-formed heap with readable keys:
     lookup by [CoreRefineObject.get_object_item_sim], then the by-pointer simulation lemmas. *)
 From CJ Require Import Base Dbl Heap Forest ForestLemmas CoreSpec CoreDefs CoreRefineBase CoreRefine
-  CoreRefineDelete CoreRefineReplace CoreRefineMore CoreRefineHistory CoreRefineObject.
+  CoreRefineDelete CoreRefineReplace CoreRefineMore CoreRefineFrame CoreRefineHistory CoreRefineObject.
 From stdpp Require Import gmap.
 Implicit Types (h : heap) (F : forest) (p x y r : positive) (d : rdata).
 Local Open Scope Z_scope.
@@ -65,28 +65,30 @@ Section ByKey.
     exists h',
       (to_detach <~ get_object_item (Some p) (Some nb) case_sensitive ;;
        cJSON_DetachItemViaPointer (Some p) to_detach) h = Ret (r, h') /\ WF h' F' /\
-      (NoLeak h F -> NoLeak h' F') /\ h_str h' = h_str h /\ h_next h' = h_next h /\ h_req h' = h_req h.
+      (NoLeak h F -> NoLeak h' F') /\ Frame h h' F F' /\ h_next h' = h_next h /\ h_req h' = h_req h.
   Proof.
     unfold spec_detach_key.
     destruct (spec_get_key (h_str h) F (Some p) (Some nb) case_sensitive) as [x|] eqn:Hg.
     - destruct (spec_get_key_child _ _ Hg) as (k & tx & Hk & Htx).
       destruct (cJSON_DetachItemViaPointer_sim h F p x d cs k tx W Hp Hk Htx) as (-> & Hrun & W').
       eexists. rewrite (bindM_Ret _ _ _ _ _ (GOI case_sensitive Href)). rewrite Hg.
-      split; [exact Hrun|]. split; [exact W'|]. split; [|done].
-      intros NL. apply (NoLeak_upd_maps h F); [|done]. by eapply owned_detach; [apply W|..].
+      pose proof (datas_detach F p d cs k tx (wf_nodup _ _ W) Hp Hk) as HD.
+      split; [exact Hrun|]. split; [exact W'|]. split; [|split; [by apply Frame_upd_maps|done]].
+      intros NL. apply (NoLeak_upd_maps h F); [|done]. by rewrite !owned_datas, HD.
     - destruct (cJSON_DetachItemViaPointer_null F (Some p) None h (or_intror eq_refl)) as [-> Hrun].
-      exists h. rewrite (bindM_Ret _ _ _ _ _ (GOI case_sensitive Href)). rewrite Hg. by split.
+      exists h. rewrite (bindM_Ret _ _ _ _ _ (GOI case_sensitive Href)). rewrite Hg.
+      split; [done|]. split; [done|]. split; [done|]. split; [by apply Frame_refl|done].
   Qed.
 
   Lemma cJSON_DetachItemFromObject_sim :
     let '(F', r) := spec_detach_key (h_str h) F (Some p) (Some nb) false in
     exists h', cJSON_DetachItemFromObject (Some p) (Some nb) h = Ret (r, h') /\ WF h' F' /\
-      (NoLeak h F -> NoLeak h' F') /\ h_str h' = h_str h /\ h_next h' = h_next h /\ h_req h' = h_req h.
+      (NoLeak h F -> NoLeak h' F') /\ Frame h h' F F' /\ h_next h' = h_next h /\ h_req h' = h_req h.
   Proof. exact (detach_by_key_sim false). Qed.
   Lemma cJSON_DetachItemFromObjectCaseSensitive_sim :
     let '(F', r) := spec_detach_key (h_str h) F (Some p) (Some nb) true in
     exists h', cJSON_DetachItemFromObjectCaseSensitive (Some p) (Some nb) h = Ret (r, h') /\ WF h' F' /\
-      (NoLeak h F -> NoLeak h' F') /\ h_str h' = h_str h /\ h_next h' = h_next h /\ h_req h' = h_req h.
+      (NoLeak h F -> NoLeak h' F') /\ Frame h h' F F' /\ h_next h' = h_next h /\ h_req h' = h_req h.
   Proof. exact (detach_by_key_sim true). Qed.
 
   (** delete by key *)
@@ -95,7 +97,9 @@ Section ByKey.
       (it <~ (to_detach <~ get_object_item (Some p) (Some nb) case_sensitive ;;
               cJSON_DetachItemViaPointer (Some p) to_detach) ;; cJSON_Delete it) h = Ret (tt, h') /\
       WF h' (spec_delete_key (h_str h) F (Some p) (Some nb) case_sensitive) /\
-      (NoLeak h F -> NoLeak h' (spec_delete_key (h_str h) F (Some p) (Some nb) case_sensitive)).
+      (NoLeak h F -> NoLeak h' (spec_delete_key (h_str h) F (Some p) (Some nb) case_sensitive)) /\
+      Frame h h' F (spec_delete_key (h_str h) F (Some p) (Some nb) case_sensitive) /\
+      h_next h' = h_next h /\ h_req h' = h_req h.
   Proof.
     unfold spec_delete_key, spec_detach_key. rewrite !bindM_assoc.
     rewrite (bindM_Ret _ _ _ _ _ (GOI case_sensitive Href)).
@@ -111,20 +115,24 @@ Section ByKey.
       { rewrite find_root_app_r by done. unfold find_root. cbn. by rewrite bool_decide_eq_true_2. }
       destruct (cJSON_Delete_sim _ _ _ _ W1 Hyr) as (_ & Hdel & Wdel & NLdel).
       rewrite (remove_root_snoc G tx Hynot) in *.
-      eexists. split; [exact Hdel|]. split; [exact Wdel|].
-      intros NL. apply NLdel. apply (NoLeak_upd_maps h F); [|done]. by eapply owned_detach; [apply W|..].
+      pose proof (datas_detach F p d cs k tx (wf_nodup _ _ W) Hp Hk) as HD. fold G in HD.
+      eexists. split; [exact Hdel|]. split; [exact Wdel|]. split; [|split].
+      + intros NL. apply NLdel. apply (NoLeak_upd_maps h F); [|done]. by rewrite !owned_datas, HD.
+      + apply (Frame_free_all h F _ _ _ _ (datas [tx])); [done| |apply free_order_datas].
+        rewrite <- datas_snoc_root. by symmetry.
+      + by rewrite free_all_next, free_all_req.
     - destruct (cJSON_DetachItemViaPointer_null F (Some p) None h (or_intror eq_refl)) as [-> Hrun].
       rewrite (bindM_Ret _ _ _ _ _ Hrun). cbn [spec_delete]. exists h.
-      split; [apply cJSON_Delete_null|]. by split.
+      split; [apply cJSON_Delete_null|]. split; [done|]. split; [done|]. split; [by apply Frame_refl|done].
   Qed.
   Lemma cJSON_DeleteItemFromObject_sim :
     exists h', cJSON_DeleteItemFromObject (Some p) (Some nb) h = Ret (tt, h') /\
       WF h' (spec_delete_key (h_str h) F (Some p) (Some nb) false) /\
       (NoLeak h F -> NoLeak h' (spec_delete_key (h_str h) F (Some p) (Some nb) false)).
-  Proof. exact (delete_by_key_sim false). Qed.
+  Proof. destruct (delete_by_key_sim false) as (h' & H1 & H2 & H3 & _). eauto. Qed.
   Lemma cJSON_DeleteItemFromObjectCaseSensitive_sim :
     exists h', cJSON_DeleteItemFromObjectCaseSensitive (Some p) (Some nb) h = Ret (tt, h') /\
       WF h' (spec_delete_key (h_str h) F (Some p) (Some nb) true) /\
       (NoLeak h F -> NoLeak h' (spec_delete_key (h_str h) F (Some p) (Some nb) true)).
-  Proof. exact (delete_by_key_sim true). Qed.
+  Proof. destruct (delete_by_key_sim true) as (h' & H1 & H2 & H3 & _). eauto. Qed.
 End ByKey.
